@@ -504,7 +504,7 @@ vk_harness!(c04_load_replaces_and_marks_dirty, {
 //@ tier: quick
 //@ unwind: 12
 //@ encodes: Runtime::r#delete; LineNumber::try_from(Val); Listing::remove_range; Runtime::r#end
-//@ bounds: listing with one line (any number); DELETE operands: any Integer-valued Single pair 0..=65529 with from <= to (as the parser guarantees); dirty symbolic; direct mode
+//@ bounds: listing with one line (any number); DELETE operands: any Integer-valued Single pair 0..=65529 with from <= to (as the parser guarantees); dirty symbolic; typed directly or executed by a program line
 vk_harness!(c04_delete_marks_dirty, {
     let mut r = Runtime::default();
     let stored = one_stored_line(&mut r);
@@ -512,7 +512,9 @@ vk_harness!(c04_delete_marks_dirty, {
     r.dirty = dirty0;
     r.state = State::Running;
     r.cont = state_of(vk::any_below(10));
-    r.pc = 5;
+    // DELETE typed as a direct statement (pc behind the program) or executed by a program line (pc inside it)
+    let in_program = vk::any_bool();
+    r.pc = if in_program { 1 } else { 5 };
     r.entry_address = 3;
     havoc_stack_upto(&mut r, 1);
     let (a, b) = (vk::any_u16(), vk::any_u16());
@@ -534,7 +536,8 @@ vk_harness!(c04_delete_marks_dirty, {
         }
         vk_check!(r.dirty || !dirty0, "C04: DELETE must never cancel a pending recompilation");
     }
-    vk_cover!(inside && !(a == 0 && b == 65529), "reach: delete removes the line");
+    vk_cover!(inside && !(a == 0 && b == 65529) && in_program, "reach: DELETE executed by a program line removes a line");
+    vk_cover!(inside && !(a == 0 && b == 65529) && !in_program, "reach: direct DELETE removes a line");
     vk_cover!(!inside, "reach: delete removes nothing");
     core::mem::forget(r);
     core::mem::forget(got);
@@ -1269,4 +1272,35 @@ vk_harness!(c13_slicing_1_3, {
 //@ bounds: program [Literal x, Literal y, Sub, End] with x, y any Integer; budget 4 in one call versus 2 + 2
 vk_harness!(c13_slicing_2_2, {
     slicing_independent(2, 2);
+});
+
+
+//@ prop: C13
+//@ tier: quick
+//@ unwind: 12
+//@ verbose: off
+//@ encodes: Runtime::execute (direct line rejected at compile time: direct_errors gate)
+//@ bounds: a program paused with a saved continuation (state Running, any position); a direct line with one compile-time error was just entered (pc == entry_address, nothing executed)
+vk_harness!(c13_rejected_direct_line_keeps_continuation, {
+    let mut r = Runtime::default();
+    // what enter_direct leaves behind for a line that does not compile
+    r.state = State::Running;
+    let entry = vk::any_u16() as usize;
+    r.pc = entry;
+    r.entry_address = entry;
+    let mut errs: Vec<Error> = Vec::new();
+    errs.push(error!(SyntaxError));
+    r.listing.direct_errors = Arc::new(errs);
+    // the paused program
+    r.cont = State::Running;
+    let cpc = vk::any_u16() as usize;
+    r.cont_pc = cpc;
+    r.stack.push(Val::Return(vk::any_u16() as usize)).unwrap();
+    let ev = r.execute(5);
+    vk_check!(matches!(&ev, Event::Errors(v) if v.len() == 1), "C19: the compile-time error of the direct line is reported");
+    vk_check!(code_of_state(&r.state) == 1, "C03: the interpreter is back at the prompt");
+    vk_check!(code_of_state(&r.cont) == 4 && r.cont_pc == cpc && r.stack.len() == 1, "C13: a direct line that never ran must not disturb the paused program (CONT still resumes it)");
+    vk_cover!(true, "reach: rejected direct line");
+    core::mem::forget(r);
+    core::mem::forget(ev);
 });
